@@ -15,8 +15,8 @@
 //     C13_REAL_SELECT=1 restores the real wait).
 //   * gcry_kdf_derive: memoised per process (pure function of its arguments; 25000 PBKDF2
 //     iterations per link, direction and purpose otherwise dominate every case).
-// Triage aid: C13_TREAT_AS_KNOWN=sig1,sig2 makes the listed signatures behave like known findings
-// (counted, not reported) so that the remaining checks can be exercised, e.g. for mutant runs.
+// Known findings (known_findings.json): ctx.fail() returns true, the case goes on; the model is resynchronised (or the link is no
+// longer judged) right where such a signature fires, so that one root cause never surfaces under a second signature.
 #include "fix.hh"
 #include <aiounicast_nonblock.hh>
 #include <aiounicast_select.hh>
@@ -58,7 +58,6 @@ extern "C" gpg_error_t gcry_kdf_derive(const void *pass, size_t passlen, int alg
 }
 
 struct NullBuf : std::streambuf { int overflow(int c) override { return c; } std::streamsize xsputn(const char *, std::streamsize n) override { return n; } };
-static std::set<std::string> g_treat_known;
 static int count_fds() { int c = 0; DIR *d = opendir("/proc/self/fd"); if (!d) return -1; while (readdir(d)) c++; closedir(d); return c; }
 
 // --------------------------------------------------------------------------- configuration
@@ -87,7 +86,7 @@ struct Link {
   bool iv_seen = false, layout_exact = true, used = false;
   std::vector<Ent> sent; size_t delivered = 0;              // the model: FIFO of accepted integers, index of the next undelivered one
   std::vector<std::string> hist;                             // every original frame (for cross-link injection)
-  bool tainted = false, judged = true, iv_touched = false;
+  bool tainted = false, judged = true, iv_touched = false, reflect_applied = false;
   std::set<std::string> reflected; size_t frames_fed = 0, unjudged = 0;
 };
 
@@ -107,7 +106,6 @@ struct Sim {
   std::string sig(const std::string &cls) const { return std::string("channel/") + cfg.ep() + "/" + MODE_NAME[cfg.mode] + "/" + cls; }
   std::string ssig(const std::string &cls) const { return std::string("secrecy/") + cfg.ep() + "/" + MODE_NAME[cfg.mode] + "/" + cls; }
   bool fail(const std::string &s, const std::string &msg) {
-    if (g_treat_known.count(s)) { ctx.count("treated-as-known:" + s); return true; }
     return ctx.fail(s, msg + " || " + head() + " ops: " + log.str());
   }
 
@@ -198,8 +196,13 @@ struct Sim {
     if (!ok) {
       if (!as_array) {
         if (cnt != 0 || !g.empty()) fail(sig("refused-send-left-bytes-on-wire"), "Send returned false for " + S(vals[0]) + " but wrote " + std::to_string(g.size()) + " bytes");
-        if ((digits62(vals[0]) + 1) * 2 < BUFSZ) fail(sig("refuses-value-within-limit"), "Send refused " + S(vals[0]) + " (" + std::to_string(digits62(vals[0])) + " base-62 digits)");
-      } else fail(sig("refuses-value-within-limit"), "Send refused an array whose integers are all within the size limit");
+        if (cfg.enc() && vals[0] < 0) ctx.count("negative_refused_by_encrypted_send"); // documented refusal: the length-hiding offset is defined for m >= 0 only
+        else if ((digits62(vals[0]) + 1) * 2 < BUFSZ) fail(sig("refuses-value-within-limit"), "Send refused " + S(vals[0]) + " (" + std::to_string(digits62(vals[0])) + " base-62 digits)");
+      } else {
+        bool neg = false; for (auto &v : vals) if (cfg.enc() && v < 0) neg = true;
+        if (neg) ctx.count("negative_refused_by_encrypted_send"); // the array stops at the negative element; what went out before it is in the model
+        else fail(sig("refuses-value-within-limit"), "Send refused an array whose integers are all within the size limit");
+      }
     }
     // the first cnt integers are on the wire: they are the accepted ones
     for (long i = 0; i < cnt && (size_t)i < expect.size(); i++) {
@@ -273,12 +276,16 @@ struct Sim {
       if (idx < 0) for (size_t i = h; i-- > 0 && idx < 0;) if (l.sent[i].v == v) idx = (long)i;
       std::string cls, what = "link " + ln + " delivered " + S(v) + " but the next undelivered integer of the model is " + (h < l.sent.size() ? S(l.sent[h].v) : std::string("<none>")) + " (#" + std::to_string(h) + " of " + std::to_string(l.sent.size()) + ")";
       if (!l.tainted) cls = h >= l.sent.size() ? "delivers-more-than-sent" : "fragmentation-changes-delivery";
+      // encrypted stream: the foreign frame passes the tag check (same key, same sequence number), uses up the sequence number, its
+      // decryption fails; if the genuine frame of that number is missing the link goes on behind it: a gap in the delivered sequence
+      // (judged before the next line: a later integer of this link may by chance equal one the reverse link sent)
+      else if (l.reflect_applied && cfg.mode == M_AUTHENC && idx > (long)h) cls = "frame-of-reverse-link-accepted-then-gap";
       else if (l.reflected.count(v.get_str(62))) cls = "frame-of-reverse-link-delivered";
       else if (idx < 0) cls = "modified-frame-delivered";
       else if (idx < (long)h) cls = "replayed-frame-delivered";
       else cls = "delivery-continues-after-gap";
       fail(sig(cls), what);
-      if (cls == "frame-of-reverse-link-delivered") l.judged = false; // the foreign frame used up a sequence number: what follows is a consequence of this defect
+      if (cls == "frame-of-reverse-link-delivered" || cls == "frame-of-reverse-link-accepted-then-gap") l.judged = false; // the foreign frame used up a sequence number: what follows is a consequence of this defect
       if (idx >= (long)h) l.delivered = (size_t)idx + 1;
     }
   }
@@ -373,7 +380,7 @@ struct Sim {
     // which integer was that (the model of the reverse link knows; delimiters of stripped arrays are not in it, so go by the history index)
     log << " X" << l.s << ">" << l.r << ":cross-link-frame(" << l.r << ">" << l.s << "#" << k << ")@" << pos;
     for (auto &e : rv.sent) l.reflected.insert(e.v.get_str(62));
-    mark(l, F_REFLECT, false); return true;
+    l.reflect_applied = true; mark(l, F_REFLECT, false); return true;
   }
 };
 
@@ -542,7 +549,7 @@ VF_ENUM(fault_positions, 9 * 16 * 2, 9 * 16 * 32) {
     sim.send(other, std::vector<Z>(1, other1), false, S(other1));
     T = l.pending; F = sim.whole_frames(l).size();
     // position p -> fault
-    total = 4 * T + 3 * F + (F - 1) + (F + 1);
+    total = 4 * T + 3 * F + (F - 1) + (F + 1) + F + 1;
     if (p >= total) { sim.close_all(); break; }
     bool ok;
     if (p < 4 * T) { size_t off = p / 4; static const int BK[] = {F_FLIP, F_INSERT, F_DELETE, F_TRUNC}; int kind = BK[p % 4]; unsigned arg = kind == F_FLIP ? (unsigned)((off + bitrot) % 8) : (unsigned)(((off + bitrot) % 3 == 0) ? '\n' : ((off + bitrot) % 3 == 1) ? 'A' + (off % 26) : (off * 37 + bitrot) % 256); ok = sim.fault_byte(l, kind, off, arg); }
@@ -550,7 +557,9 @@ VF_ENUM(fault_positions, 9 * 16 * 2, 9 * 16 * 32) {
     else if (p < 4 * T + 2 * F) ok = sim.fault_frame(l, F_DUP, p - 4 * T - F, F - 1);
     else if (p < 4 * T + 3 * F) ok = sim.fault_frame(l, F_DROP, p - 4 * T - 2 * F, 0);
     else if (p < 4 * T + 3 * F + (F - 1)) ok = sim.fault_frame(l, F_SWAP, p - 4 * T - 3 * F, p - 4 * T - 3 * F + 1);
-    else { size_t a = p - (4 * T + 3 * F + (F - 1)); ok = sim.fault_reflect(l, a, (established ? 1 : 0) + a); }
+    else if (p < 4 * T + 3 * F + (F - 1) + (F + 1)) { size_t a = p - (4 * T + 3 * F + (F - 1)); ok = sim.fault_reflect(l, a, (established ? 1 : 0) + a); }
+    else if (p < 4 * T + 3 * F + (F - 1) + (F + 1) + F) { size_t a = p - (4 * T + 3 * F + (F - 1) + (F + 1)); ok = sim.fault_reflect(l, a, (established ? 1 : 0) + a) && sim.fault_frame(l, F_DROP, a + 1, 0); } // frame a REPLACED by the reverse link's frame of the same number
+    else { ok = true; for (size_t a = 0; a < F && ok; a++) ok = sim.fault_reflect(l, a, (established ? 1 : 0) + a) && sim.fault_frame(l, F_DROP, a + 1, 0); } // the whole pending stream replaced by the reverse link's stream
     (void)ok;
     // hand over in two pieces around the damaged place, receive, then more traffic on both links
     sim.feed_op(l, (size_t)(1 + (p * 7) % (l.pending ? l.pending : 1)), true); sim.recv_op(1, S_RR, 0, 0); sim.recv_op(1, S_DIR, 0, 0);
@@ -561,7 +570,7 @@ VF_ENUM(fault_positions, 9 * 16 * 2, 9 * 16 * 32) {
   }
   ctx.count("faults_checked", (int64_t)done);
   ctx.label(std::string("ep:") + cfg.ep()); ctx.label(std::string("mode:") + MODE_NAME[cfg.mode]); ctx.label(established ? "established-link" : "fresh-link");
-  ctx.desc << cfg.ep() << "/" << MODE_NAME[cfg.mode] << (established ? " established link" : " fresh link") << " msgs=" << msgs_desc(msgs) << " wire=" << T << " bytes, " << F << " frames: faults " << j << " mod " << FAULT_B << " of " << total << " (flip/insert/delete/truncate at every offset, dup/drop/swap/cross-link of every frame)";
+  ctx.desc << cfg.ep() << "/" << MODE_NAME[cfg.mode] << (established ? " established link" : " fresh link") << " msgs=" << msgs_desc(msgs) << " wire=" << T << " bytes, " << F << " frames: faults " << j << " mod " << FAULT_B << " of " << total << " (flip/insert/delete/truncate at every offset, dup/drop/swap/cross-link insertion/cross-link replacement of every frame and of all frames)";
   ctx.nontrivial(std::to_string(idx));
 }
 
@@ -570,7 +579,6 @@ void vf::harness_init() {
   signal(SIGPIPE, SIG_IGN);
   g_real_select = getenv("C13_REAL_SELECT") != nullptr;
   if (!getenv("C13_VERBOSE")) { static NullBuf nb; std::cerr.rdbuf(&nb); } // the library reports every refused frame on std::cerr
-  if (const char *k = getenv("C13_TREAT_AS_KNOWN")) { std::string s(k); size_t i = 0; while (i <= s.size()) { size_t j = s.find(',', i); if (j == std::string::npos) j = s.size(); if (j > i) g_treat_known.insert(s.substr(i, j - i)); i = j + 1; } }
   // warm-up: lazy initialisations of libgcrypt (and the key derivations) happen here, not inside the first case's descriptor accounting
   Ctx dummy; for (int sel = 0; sel < 2; sel++) { Cfg c; c.sel = sel; c.mode = sel ? M_CHUNKED : M_AUTHENC; c.n = 3; Sim s(dummy, c); }
 }
